@@ -12,6 +12,7 @@ use crate::spec::RuleSpec;
 pub const ID: &str = "C13";
 
 fn marker_of(v: &Y) -> Option<String> {
+    // as_mapping() looks through YAML tags
     v.as_mapping().and_then(|m| m.get(Y::String("marker".into()))).and_then(|x| x.as_str()).map(|s| s.to_string())
 }
 
@@ -157,6 +158,28 @@ pub fn run(tier: &str, seed: u64) -> i32 {
             };
             let mut p: Vec<Y> = tps.iter().map(&mut mk).collect();
             let mut ng: Vec<Y> = tns.iter().map(&mut mk).collect();
+            // now and then an example is a tagged mapping (still a mapping), or carries a top-level
+            // key that is literally spelled like one of the rule's dotted / indexed paths
+            let paths: Vec<String> = crate::spec::collect_leaves(rule)
+                .iter()
+                .filter(|l| l.prefix.is_empty() && (l.field.contains('.') || l.field.contains('[')))
+                .map(|l| l.field.clone())
+                .collect();
+            for (i, ex) in p.iter_mut().chain(ng.iter_mut()).enumerate() {
+                if let (Y::Mapping(m), false) = (&mut *ex, paths.is_empty()) {
+                    if (i + counter) % 3 == 0 {
+                        let path = &paths[(i + counter) % paths.len()];
+                        m.insert(Y::String(path.clone()), Y::String(["a", "b", "zz"][i % 3].to_string()));
+                    }
+                }
+                if (i + counter) % 5 == 1 {
+                    let inner = ex.clone();
+                    *ex = Y::Tagged(Box::new(serde_yaml::value::TaggedValue {
+                        tag: serde_yaml::value::Tag::new("event"),
+                        value: inner,
+                    }));
+                }
+            }
             // now and then the same example appears in both lists (it must then fail one of them)
             if *sw != Some(7) && !p.is_empty() && counter % 4 == 0 {
                 let dup = p[counter % p.len()].clone();
